@@ -246,11 +246,16 @@ i.inv("trivial", "True")
 EMT = "_ExecutorManagerThread"
 WF_IDS = "forall(Int, lambda k: implies(G.work_ids[k], k in self.pending_work_items))"
 
-c = M.contract(f"{EMT}.add_call_item_to_queue", props=["C03", "C04", "C15"])
+c = M.contract(f"{EMT}.add_call_item_to_queue", props=["C03", "C04", "C15", "C08"])
 c.param("self", T.Ref(EMT))
 c.rely("ids-queued-are-pending", WF_IDS, "A-atomic")
 c.ensures("dispatch/ids-queued-stay-pending", WF_IDS)
 c.at_call("mp.Queue.put", "id-recorded-as-running-before-the-feeder-can-see-the-item", "mem(self.running_work_items, work_id)", prop=["C03", "C04"])
+# C08 ("... and is delivered"): the manager thread is woken once per submit / result / worker exit, not once per work id: a pass that stops early (after a
+# cancelled item, say) strands live work ids behind it with idle workers and nobody to wake the manager; a pass ends only on a full call queue or an empty id queue
+c.ensures("dispatch/stops-only-when-the-call-queue-is-full-or-no-work-id-waits",
+          "tail((log_count('cq_full') == 1 and log_arg('cq_full', 0, 1) and log_count('wq_get') + log_count('wq_get_empty') == 0) or "
+          "(log_count('wq_get_empty') == 1 and log_count('wq_get') == 0))", prop=["C08", "C03"])
 c.raises_only("dispatch/no-exception")
 c.modifies("contents(self.pending_work_items)", "contents(self.running_work_items)", "G.work_ids", "G.fut_running")
 c.assumes("A-atomic")
@@ -383,7 +388,7 @@ c.raises("adjust/failed-spawn-keeps-the-table-sound", "OSError",
               " and forall(Int, lambda k: implies(k in self._processes, G.pid_live[k]))", prop="C08")
 c.raises_only("adjust/only-spawn-errors")
 c.modifies("contents(self._processes)", "G.started", "G.pid_live", "G.proc_of_pid")
-i = M.invariant(f"{PPE}._adjust_process_count", 0, "while len(self._processes) < self._max_workers:")
+i = M.invariant(f"{PPE}._adjust_process_count", 0, "while len(")
 i.inv("bound", "len(self._processes) <= max(at_entry(len(self._processes)), self._max_workers) and len(self._processes) >= at_entry(len(self._processes))", prop="C08")
 i.inv("registered-pids-are-live", "forall(Int, lambda k: implies(k in self._processes, G.pid_live[k]))")
 i.inv("keeps-existing-workers", KEEP.format(o="at_entry"), prop="C08")
@@ -476,7 +481,7 @@ i.inv("remaining-are-original", "forall(Int, lambda k: implies(k in self.process
 i.variant("len(self.processes)")
 
 # ---------------------------------------------------------------- terminate_broken (C02)
-c = M.contract(f"{EMT}.terminate_broken", props=["C02", "C09"])
+c = M.contract(f"{EMT}.terminate_broken", props=["C02", "C09", "C10"])
 c.param("self", T.Ref(EMT)).param("bpe", T.Exc())
 # a pending future is resolved by this call (failed with bpe) or was found already resolved by its owner (cancelled / finished: set_exception refused)
 ALL_FAILED = ("forall(Int, lambda k: implies(old(k in self.pending_work_items), "
